@@ -8,13 +8,14 @@
     lock.rs:50-59   Drop for ObjectLock removes the file: runs on every exit path of the
                     scope that owns the guard (return Ok, `?`/return Err, unwinding panic).
                     = the [Running (Done out)] -> [Finished] step, for every [out].
-    repo.rs:547, 606, 701, 763, 821, 901, 919, 1110
+    repo.rs:574, 633, 736, 806, 864, 944, 962, 1159  (547, 606, 701, 763, 821, 901, 919, 1110 at the
+                    revision of properties.jsonl)
                     `let _lock = self.get_lock_manager()?.acquire(object_id)?;` is the first
                     statement that touches the object in create_object, copy_files_internal,
                     move_files_internal, remove_files, reset, commit, upgrade_object and
                     operate_on_external_source (cp/mv of external files); the guard lives to
                     the end of the function.  = every operation is  acquire o ; body ; release o.
-    (reset_all, repo.rs:793, and purge_object, repo.rs:494, take no lock: they are not
+    (reset_all, repo.rs:836, and purge_object, repo.rs:521, take no lock: they are not
     operations of this model, and not in the property's list.)
 
     The body of an operation is arbitrary: a tree of atomic steps, each of which reads the data
@@ -206,6 +207,9 @@ Section LockModel.
     end.
 
 End LockModel.
+
+(** a schedule without interleaving: one block of [n] consecutive steps of operation [i] per pair (i, n) *)
+Definition blocks_sched (bl : list (nat * nat)) : list nat := flat_map (fun b => repeat (fst b) (snd b)) bl.
 
 Arguments Done {data}.
 Arguments Step {data}.
